@@ -25,6 +25,15 @@ def live_predicates(ctx, f):
             continue
         seen.add(s)
         out.append((nd, s))
+    # row-level liveness through an aggregate: max(ACC, axis=1) <op> c  (a row is live iff its largest entry is >= 0)
+    for nd, s in ctx.all_subterms(f):
+        if s[0] == 'cmp' and s not in seen:
+            for a, b in ((s[2], s[3]), (s[3], s[2])):
+                if b[0] == 'c' and isinstance(b[1], int) and a[0] == 'call' and a[1][0] == 'g' and \
+                        a[1][1] in ('numpy.max', 'numpy.amax') and a[2] and K.kind(a[2][0], f) in ('ACC', 'ROW') and \
+                        any(k == 'axis' for k, _ in a[3]):
+                    seen.add(s)
+                    out.append((nd, s))
     return out
 
 
